@@ -26,7 +26,8 @@ CLAIMED["C10"] = dict(
     level="proof",
     text="The out-of-range clause is proved over the full double domain (loop-free harnesses on the real range "
          "tests of vnacal_new_add_*/set_frequency_vector, vnacal_new_set_m_error, vnacal_get_parameter_value and "
-         "the bound functions used by apply): a >=5% miss at either end is refused, full coverage is accepted. "
+         "the bound functions used by apply): a >=5% miss at either end is refused, full coverage is accepted; the "
+         "frequency range of a correlated parameter is the intersection of its correlate's range and its sigma grid. "
          "The segment search of _vnacal_rfi is closed by DFCC loop contracts for any number of iterations "
          "(bracketing postcondition, termination). Exactness at the knots is proved for the spline evaluator "
          "(any coefficients) and for _vnacal_rfi with up to 4 knots and any hint: bounded in the number of "
@@ -61,8 +62,13 @@ CLAIMED["C11"] = dict(
          "assigns clause - nothing else in the object written. (3) 'Refused calls leave the object observably "
          "unchanged' and 'returned indices are the ones the queries honour' are postconditions of the C15/C16 "
          "harnesses, re-run here for vnadata_resize/init/set_type/cell/frequency/z0 setters and the vnacal "
-         "calibration/parameter tables.",
-    note="file loaders/savers (stdio), vnacal_new_add_* build-then-link, failed-solve retry: not covered; NaN "
+         "calibration/parameter tables.  (4) solve_frame: the real vnacal_new_solve / _vnacal_new_solve_internal "
+         "(with _init, _start_frequency, _free, convert_ue14_to_e12, calibration alloc/free) around assumed contracts "
+         "of the per-frequency numeric solvers: every failing exit returns -1 with exactly one report and leaves the "
+         "earlier result (same pointer, still allocated, same contents) and the standards in place; a successful solve "
+         "installs one well-shaped calibration; retry and the frees are clean - for T8/UE14/E12/TE10, 1x1 and 2x2, "
+         "with/without earlier result, unknown parameter, m_error, TRL route; all values and solver outcomes symbolic.",
+    note="file loaders/savers (stdio) not covered; the numeric solvers themselves are assumed contracts in (4); NaN "
          "arguments to the double-valued setters not specified",
     design="DESIGN.md 3 C11, 8.4",
     technique="CBMC: full-domain contract on _vnaerr_verror + DFCC enforce-contract on setters + refusal postconditions",
@@ -75,8 +81,11 @@ CLAIMED["C04"] = dict(
          "verification conditions - every port state satisfying the input representation's defining relation of "
          "vnaconv(3) satisfies the output's with the computed matrix (complex, unequal z0, K_i = 1/sqrt|Re z_i|), "
          "in-place call equals out-of-place call, converting back returns the original, Zin_k = v_k/i_k with the "
-         "other port terminated - are discharged by sympy as rational-function identities over exact complex "
-         "arithmetic: a proof for all inputs off the singular set, in exact arithmetic.  The 9 n-port functions are "
+         "other port terminated, and DOM: the code divides only by quantities that are nonzero for Re z0 > 0 or vanish "
+         "only inside the singular set of the conversion it computes (zero set of the reduced result's denominators), "
+         "so no input of the conversion's domain is lost to an intermediate form - are discharged by sympy as "
+         "rational-function identities over exact complex arithmetic: a proof for all inputs off the singular set, in "
+         "exact arithmetic.  Nested vnaconv_* calls are executed from the callee's own repository text.  The 9 n-port functions are "
          "executed by a small C interpreter over the same repository text (loops, VLAs, index macros; linear kernels "
          "by exact contract): symbolic proof at n = 1 and n = 2, including agreement with the two-port function at "
          "n = 2; at n = 3 (and 4 in thorough) only exact-rational INSTANCES with structured z0 patterns (polynomial "
@@ -113,8 +122,8 @@ CLAIMED["C12"] = dict(
          "nothing remains allocated after the free functions.",
     note="quick tier scripts: vnadata (alloc, init, setters incl. both z0 mode switches, resize grow/shrink, free), "
          "vnacal_new (create, new_alloc, add_single_reflect_m, free; K=21), addcal (replace by name, grow the "
-         "table); thorough adds add_frequency (0->50 allocation step) and the vnacal create/parameters/free "
-         "script; every run also proves that its injected fault was reached; a/b forms, solve, save/load are outside",
+         "table), vnacal (create, make_scalar/vector/unknown, delete, free; K=11); thorough adds add_frequency "
+         "(0->50 allocation step); every run also proves that its injected fault was reached; a/b forms, solve, save/load are outside",
     design="DESIGN.md 2.2 E4, 3 C12, 8.7",
     technique="exhaustive single-allocation-fault enumeration, one CBMC proof run per fault index",
 )
@@ -125,9 +134,12 @@ CLAIMED["C13"] = dict(
          "or 8 (including completely full) for subscript/insert/append/delete/count with the whole-sequence "
          "postcondition (children before kept, after shifted, slack slots null, deleted subtree freed); maps by "
          "every 3-step set/get/delete sequence from the empty map over keys chosen to share a hash bucket, "
-         "against an insertion-ordered model, with no leak on failed lookups.",
-    note="descriptor scanner/parser, vnaproperty_quote_key, vnacal_property_* wrappers and errno classes of "
-         "malformed descriptors are NOT covered (symex over heap strings did not finish); bounded sizes",
+         "against an insertion-ordered model, with no leak on failed lookups.  vnaproperty_quote_key against the real "
+         "scanner: for keys of 1-2 bytes (3 in thorough) with one representative byte per scanner character class at "
+         "each position (every one-byte key in thorough) the quoted key scans as exactly one identifier whose text is "
+         "the original key, with nothing after it.",
+    note="descriptor parser (parse, parse_and_descend), vnacal_property_* wrappers and errno classes of malformed "
+         "descriptors are NOT covered; <ctype.h> by a C-locale table model; bounded sizes",
     design="DESIGN.md 3 C13, 8.5",
     technique="CBMC contract harnesses on the static container functions (sequence / ordered-map views)",
 )
@@ -137,6 +149,10 @@ CLAIMED["C01"] = dict(
     text="PARTIAL (structural links only). (0) cell mapping of _vnacal_new_add_common along real histories: a two-port "
          "standard with an abbreviated 2x2 measurement matrix and any port order on a 3x3 calibration lands on the "
          "sorted ports' M cells and on S cells map[a],map[b]; connected/unconnected cells hold the zero parameter. "
+         "(0b) the per-calibration parameter collection (hash_expand/lookup/insert, _vnacal_new_get_parameter) keeps its "
+         "representation invariant and resolves every handle - VNACAL_ZERO above all - to the one node created for it, "
+         "also after the table has grown with a colliding handle present (node identity with vn_zero is how known-zero "
+         "cells are recognised). "
          "(1) _vnacal_layout carries a DFCC function contract: for all 9 error-term "
          "types and dimensions 1..8 the sub-matrix regions plus outside leakage terms partition [0, error_terms) "
          "and every region has the size documented by the header's own VL_*_ROWS/COLUMNS macros (full, diagonal or "
@@ -149,7 +165,7 @@ CLAIMED["C01"] = dict(
          "fill_u8/u16/ue14/e12, rfi values between knots, accuracy.  The end-to-end numerical statement of C01 is "
          "out of reach of contract verification with CBMC; a numerical defect that keeps indices intact is invisible",
     design="DESIGN.md 3 C01, 8.9",
-    technique="DFCC function contract (_vnacal_layout) + ring-substituted cell-wise contracts on extracted fill_t8/fill_t16",
+    technique="DFCC function contract (_vnacal_layout) + ring-substituted cell-wise contracts on extracted fill_t8/fill_t16 + CBMC contract harnesses (cell map, parameter hash)",
 )
 CLAIMED["C07"] = dict(
     level="proof",
@@ -186,9 +202,10 @@ CLAIMED["C03"] = dict(
          "object with invalid arguments included (indices -1, n, n+1, dead handles, full containers), for: vnadata "
          "(cells, matrices, z0 modes, resize, add_frequency, free, in-place convert), the vnacal calibration and "
          "parameter tables incl. vnacal_free and teardown, property lists/maps, spline and rfi kernels, and the save "
-         "formatters within ordinary precisions.  Invariant preservation (C15/C16/C13) extends this to every history "
+         "formatters within ordinary precisions, vnacal_new_add_* scenarios (12 entry/shape combinations, 0 frequencies), "
+         "_vnacal_new_solve_update_s_matrices with unspecified cells.  Invariant preservation (C15/C16/C13) extends this to every history "
          "of those operations, within the stated shape bounds.",
-    note="NOT covered: vnacal_new_add_*/solve, save/load bodies, YAML, descriptor parser, floating-point UB, "
+    note="NOT covered: the numeric solvers, save/load bodies, YAML, descriptor parser, floating-point UB, "
          "zero-length memcpy/memset with NULL; see DESIGN 8.12",
     design="DESIGN.md 3 C03, 8.12",
     technique="CBMC standard checks + memory-leak check on the contract harnesses (invariants give all histories)",
@@ -203,7 +220,9 @@ CLAIMED["C20"] = dict(
          "standard (invalid, dead or negative handle) adds nothing; with fewer equations than unknown error terms "
          "vnacal_new_solve fails with exactly one MATH/EDOM report, installs no calibration, leaves the accumulated "
          "standards untouched (so adding the missing ones and solving again is admissible) and leaks nothing - "
-         "with and without the measurement-error model.",
+         "with and without the measurement-error model; the same holds for E12/UE14 when only ONE column system is "
+         "short of equations while another has enough, whatever the linear kernels return (assumed contract: any rank "
+         "<= min(m,n), any determinant).",
     note="histories from a fresh object on concrete small shapes, not an arbitrary well-formed object; 'every "
          "determining set solves and corrects exactly' (numerical rank/accuracy), solve_auto/TRL: NOT covered",
     design="DESIGN.md 3 C20, 8.16",
